@@ -154,7 +154,17 @@ impl Gen {
                 if let Some(ch) = ca.children.first().cloned() {
                     self.cas[ci].children.retain(|x| *x != ch);
                     self.orphans.push((ca.name.clone(), ch.clone()));
-                    vec![format!("childrm {} {ch}", ca.name), format!("sync {ch} {}", ca.name)]
+                    if self.rng.chance(1, 4) {
+                        // with a certificate request pending (new key of a roll)
+                        vec![
+                            format!("rollinit {ch}"),
+                            format!("childrm {} {ch}", ca.name),
+                            format!("sync {ch} {}", ca.name),
+                            format!("sync {ch} {}", ca.name),
+                        ]
+                    } else {
+                        vec![format!("childrm {} {ch}", ca.name), format!("sync {ch} {}", ca.name)]
+                    }
                 } else {
                     one(format!("childrm {} zz", ca.name))
                 }
@@ -259,7 +269,9 @@ impl Gen {
             }
             96..=97 => one("reposync ta".into()),
             98 => one("tasync".into()),
-            _ => one("reposync zz".into()),
+            _ => {
+                if self.rng.chance(1, 2) { one("reposync zz".into()) } else { one(format!("sync {} zz", ca.name)) }
+            }
         }
     }
 }
